@@ -66,7 +66,9 @@ class FlowGen:
             a["field"] = {"name": name, "key": name.strip().lower().replace(" ", "_")}
             a["value"] = self.text(f"v{k}")
         elif t in ("add_contact_groups", "remove_contact_groups"):
-            a["groups"] = [{"name": rng.choice(["GrpA", "GrpB", "Grp C"]), "uuid": None}]
+            # group names may carry the cell separators and the escape character (the exported cell is a
+            # one-element list: it must be escaped like any other list cell)
+            a["groups"] = [{"name": rng.choice(["GrpA", "GrpB", "Grp C", "GrpA", "Parents; Teachers", "Staff|Volunteers", "a\\b"]), "uuid": None}]
         elif t == "set_run_result":
             a["name"] = rng.choice(["answer", "score"])
             a["value"] = self.text(f"r{k}")
